@@ -40,12 +40,16 @@ CORE_PROGRAMS = [
     "(1, 2, 3) !(== 2)", "\"ab\" elem \"cd\" elem add", "[[1, 2], [3]] elem elem", "(1, 2) ((3, 4) (5, 6) add)",
     "(1, (2, 3)) ((4 || 5), 6)", "[0, 1, 2] (|L| L elem (pos == 1))", "((1, 2) || 3) ((4, 5) || 6)",
     "dup add", "dup elem", "(dup, 1)", "?(drop) \"%s\"", "[dup] swap",
+    # words whose behaviour depends on data they might be tempted to remember: the pattern of a match comes from the stack
+    "?match", "(|H P| H (=~ P))", "(|H P| H !(P ?match))", "(|A B| [A B add, A length])",
 ]
 DW_PROGRAMS = [
     "entry", "entry parent", "entry ?root", "entry abbrev", "entry child*", "unit entry", "symbol", "entry attribute value",
     "entry @AT_name", "entry ?(@AT_location) @AT_location elem", "raw entry", "entry (|D| D child [D parent])",
 ]
 CORE_INPUTS = ["", "Idec:5", "Idec:5 Shex".replace("Shex", "S6162"), "[ Idec:1 Idec:2 ]", "S616263", "Ihex:255 Idec:0"]
+# haystack + pattern: a valid pattern, one that does not compile, another valid one
+MATCH_INPUTS = ["S666f6f S5e66", "S666f6f S6628", "S666f6f S625b", "S626172 S5e62"]
 FILES = ["a1.out", "nontrivial-types.o", "dwz-partial2-1", "bitcount.o"]
 
 STRIP = ("dw", "di", "id", "sh")
@@ -219,6 +223,12 @@ def interleavings(maxlen):
 def program_inputs(tier):
     out = []
     for p in CORE_PROGRAMS:
+        if "match" in p or "=~" in p or p.startswith("(|A B|"):
+            # valid then invalid, invalid then valid, invalid then another invalid (each history ends by executing
+            # the second input once more)
+            for a, b in ((0, 1), (1, 0), (1, 2), (3, 1)):
+                out.append((p, [("core", MATCH_INPUTS[a]), ("core", MATCH_INPUTS[b])]))
+            continue
         ins = [("core", i) for i in CORE_INPUTS if applicable(p, i)]
         out.append((p, ins[:2] if len(ins) >= 2 else ins * 2))
     for p in DW_PROGRAMS:
